@@ -256,6 +256,8 @@ def classify_loop_body(body, flow, effects, loop_blocks, next_bb):
                 t = body.blocks[bb].term
                 if t.k == "switch" and body.blocks[bb].stmts and _is_next_match(body, bb, next_bb):
                     continue
+                if _exit_returns_constant(body, bb, s, loop_blocks):
+                    continue  # `if test(item) { return CONST }`: an any/all-style exit, the same whichever item triggers it
                 bump("ORDER", "loop exit (break/return) at %s" % loc_str(t.span))
     return cls, reasons
 
@@ -283,6 +285,47 @@ def _keyed_store_by_item(body, fl, site, next_bb):
         if rv is not None and rv.k in ("ref", "use", "copyderef"):
             loc = rv.place.local if rv.place is not None else (rv.ops[0].place.local if rv.ops and rv.ops[0].place is not None else None)
             d = fl.single_def(loc) if loc is not None else None
+            continue
+        return False
+    return False
+
+
+def _exit_returns_constant(body, bb, succ, loop_blocks):
+    """the exit bb -> succ leads straight to `return` and the returned value is assigned a constant on the way
+    (in the exiting block or after it), nothing else is assigned"""
+    seen = set()
+    cur = succ
+    const_ret = False
+    # the exiting block itself may assign the constant before leaving
+    for st in body.blocks[bb].stmts:
+        if st.k == "assign" and st.lhs.local == 0 and not st.lhs.proj:
+            const_ret = st.rv.k == "use" and st.rv.ops[0].is_const()
+    steps = 0
+    while cur is not None and steps < 40:
+        steps += 1
+        if cur in seen or cur in loop_blocks:
+            return False
+        seen.add(cur)
+        blk = body.blocks[cur]
+        for st in blk.stmts:
+            if st.k != "assign":
+                continue
+            if st.lhs.local == 0 and not st.lhs.proj:
+                const_ret = st.rv.k == "use" and st.rv.ops[0].is_const()
+            elif body.local_name(st.lhs.local) is not None:
+                return False
+        t = blk.term
+        if t.k == "return":
+            return const_ret
+        if t.k in ("goto", "drop"):
+            cur = t.target
+            continue
+        if t.k == "switch":
+            # drop-flag switches on the way out: all successors must behave the same; follow the first non-loop one
+            nxt = [x for x in body.succ(cur) if x not in loop_blocks]
+            if not nxt:
+                return False
+            cur = nxt[0]
             continue
         return False
     return False
